@@ -52,6 +52,8 @@ TagOf(p) == IF p = "A" THEN 1 ELSE IF p = "B" THEN 2 ELSE 3
 \* the long-term key an endpoint signs with: "C" is a second client instance of B's account (same
 \* long-term key, its own instance tag and DH secrets), see OTRMulti.tla
 KeyOf(p) == IF p = "C" THEN "B" ELSE p
+\* (the field `key` of an endpoint's state is the key it signs with now: KeyOf(me), or another one after the
+\* user came back with a new long-term key -- event Reset of the trace specification)
 
 \* ------------------------------------------------------------------------
 \* State of one endpoint
@@ -60,7 +62,7 @@ KeyOf(p) == IF p = "C" THEN "B" ELSE p
 NoPol == [v2 |-> FALSE, v3 |-> FALSE, req |-> FALSE, wstag |-> FALSE, wsstart |-> FALSE, errstart |-> FALSE]
 
 InitParty(me, pol, ver) ==
-  [ me |-> me, pol |-> pol,
+  [ me |-> me, key |-> KeyOf(me), pol |-> pol,
     ms |-> "plain", ver |-> ver, ws |-> 0,
     auth |-> "nil", ax |-> 0, agy |-> 0, aenc |-> 0, ahash |-> 0, akid |-> 0, atid |-> 0,
     oid |-> 0, tid |-> 0, cur |-> 0, prev |-> 0, tcur |-> 0, tprev |-> 0,
@@ -91,7 +93,10 @@ Res(s, out, plain, err, evs) == [s |-> s, out |-> out, plain |-> plain, err |-> 
 \* ------------------------------------------------------------------------
 
 QueryMsg(s) == [t |-> "Q", vs |-> VersionSeq(s)]
-ErrorMsg == [t |-> "E"]
+\* an OTR error message; code: which of the library's error codes the text was asked for ("unreadable",
+\* "malformed", "encryption"), "other" for a text somebody else wrote
+ErrM(code) == [t |-> "E", code |-> code]
+ErrorMsg == ErrM("other")
 PlainMsg(text, tagvs) == [t |-> "P", text |-> text, tag |-> tagvs, tagged |-> tagvs # <<>>]
 
 Hdr(s) == [v |-> s.ver, st |-> IF s.ver = 3 THEN s.otag ELSE 0, rt |-> IF s.ver = 3 THEN s.ttag ELSE 0]
@@ -215,7 +220,7 @@ Finish(s, fresh) ==
                       !.ctrs = {}, !.macs = {}, !.pend = IF KF_ReAKEWipesMacs THEN {} ELSE s.pend \cup {<<k[3], k[4]>> : k \in s.macs},
                       !.ms = "enc", !.renc = TRUE, !.sess = IF KF_EarlySSID THEN @ ELSE s.asess]
       s2 == WipeAKE(s1)
-      ev == (IF s.peer = KeyOf(s.me) THEN <<"msg:MessageReflected">> ELSE <<>>)
+      ev == (IF s.peer = s.key THEN <<"msg:MessageReflected">> ELSE <<>>)
             \o (IF was = "enc" THEN <<"sec:StillSecure">> ELSE <<"sec:GoneSecure">>)
   IN [s |-> s2, evs |-> ev]
 
@@ -246,12 +251,12 @@ RecvDHKey(s, m) ==
                   s1 == WithOwnTag([s EXCEPT !.agy = gy, !.asess = SortedPair(s.ax, gy),
                                              !.sess = IF KF_EarlySSID THEN SortedPair(s.ax, gy) ELSE @, !.akid = s.akid + 1,
                                              !.rev = IF KF_EarlySSID THEN TRUE ELSE @, !.auth = "awSig"])
-                  xs == SigBlob("R", s1.ax, gy, KeyOf(s1.me), s1.akid)
+                  xs == SigBlob("R", s1.ax, gy, s1.key, s1.akid)
               IN Res(s1, <<RevealSigMsg(s1, s1.ax, xs)>>, NoText, FALSE, <<>>)
     [] s.auth = "awSig" ->
          IF m.gy = -2 THEN Res(s, <<>>, NoText, TRUE, <<>>)
          ELSE IF m.gy = s.agy /\ m.gy # -1
-              THEN Res(s, <<RevealSigMsg(s, s.ax, SigBlob("R", s.ax, s.agy, KeyOf(s.me), s.akid))>>, NoText, FALSE, <<>>)
+              THEN Res(s, <<RevealSigMsg(s, s.ax, SigBlob("R", s.ax, s.agy, s.key, s.akid))>>, NoText, FALSE, <<>>)
               ELSE Res(s, <<>>, NoText, FALSE, <<>>)
     [] OTHER -> Res(s, <<>>, NoText, FALSE, <<>>)
 
@@ -275,7 +280,7 @@ RecvRevealSig(s, m, fresh) ==
         IN IF ~BlobSigOk(m.xs, s.ax, gx) THEN Res(IF KF_EarlyPeerKey THEN s2 ELSE s, <<>>, NoText, TRUE, <<>>)
            ELSE
             LET s3 == WithOwnTag([s2 EXCEPT !.atid = m.xs.kid, !.akid = s2.akid + 1, !.rev = FALSE, !.auth = "none"])
-                sig == SigMsg(s3, SigBlob("S", s3.ax, gx, KeyOf(s3.me), s3.akid))
+                sig == SigMsg(s3, SigBlob("S", s3.ax, gx, s3.key, s3.akid))
                 f == Finish(s3, fresh)
             IN Res(f.s, <<sig>>, NoText, FALSE, f.evs)
 
@@ -361,7 +366,7 @@ InjectErr(s) == [s EXCEPT !.inj = @ + 1]
 \* unless the sender asked to ignore unreadable messages.
 RejectData(s, m, kind) ==
   IF m.flag % 2 = 1 THEN Res(s, <<>>, NoText, FALSE, <<>>)
-  ELSE Res(s, <<ErrorMsg>>, NoText, TRUE, <<kind>>)
+  ELSE Res(s, <<ErrM("unreadable")>>, NoText, TRUE, <<kind>>)
 
 \* TLV processing: disconnect, extra key, SMP.  acc = [s, evs, replies (seq of smp records)]
 RECURSIVE ProcTLVs(_, _, _, _)
@@ -431,12 +436,12 @@ RecvData(s, m, fresh) ==
                 hbg == IF hbdue THEN GenData(s4, NoText, FALSE, 1, <<>>, FALSE) ELSE [ok |-> TRUE, s |-> s4, m |-> ErrorMsg]
             IN IF tl.err
                THEN IF m.flag % 2 = 1 THEN Res(tl.s, <<>>, NoText, FALSE, ev0 \o tl.evs)
-                    ELSE Res(tl.s, <<ErrorMsg>>, NoText, TRUE, ev0 \o tl.evs \o <<"msg:ReceivedMessageMalformed">>)
+                    ELSE Res(tl.s, <<ErrM("malformed")>>, NoText, TRUE, ev0 \o tl.evs \o <<"msg:ReceivedMessageMalformed">>)
                ELSE IF tl.replies # <<>> /\ ~rep.ok
                THEN IF m.flag % 2 = 1 THEN Res(s4, <<>>, NoText, FALSE, ev0 \o tl.evs)
-                    ELSE Res(s4, <<ErrorMsg>>, NoText, TRUE, ev0 \o tl.evs \o <<"msg:ReceivedMessageUnreadable">>)
+                    ELSE Res(s4, <<ErrM("unreadable")>>, NoText, TRUE, ev0 \o tl.evs \o <<"msg:ReceivedMessageUnreadable">>)
                ELSE IF hbdue /\ ~hbg.ok
-               THEN Res(InjectErr(s4), <<ErrorMsg>>, plain, TRUE, ev0 \o tl.evs \o <<"msg:ReceivedMessageMalformed">>)
+               THEN Res(InjectErr(s4), <<ErrM("malformed")>>, plain, TRUE, ev0 \o tl.evs \o <<"msg:ReceivedMessageMalformed">>)
                ELSE IF hbdue
                THEN Res([hbg.s EXCEPT !.hb = FALSE], repout \o <<hbg.m>>, plain, FALSE, ev0 \o tl.evs \o <<"msg:LogHeartbeatSent">>)
                ELSE Res(s4, repout, plain, FALSE, ev0 \o tl.evs)
@@ -495,7 +500,7 @@ RecvEncoded(s, m, fresh, hi) ==
          ELSE
           LET vt == IF v = 3 THEN VerifyTags(s1, m.st, m.rt) ELSE [s |-> s1, verdict |-> "ok"]
           IN CASE vt.verdict = "bad" ->
-                    Res(Rollback(vt.s, s), <<ErrorMsg>>, NoText, TRUE, <<"msg:ReceivedMessageMalformed">>)
+                    Res(Rollback(vt.s, s), <<ErrM("malformed")>>, NoText, TRUE, <<"msg:ReceivedMessageMalformed">>)
                [] vt.verdict = "other" ->
                     Res(Rollback(vt.s, s), <<>>, NoText, FALSE, <<"msg:ReceivedMessageForOtherInstance">>)
                [] OTHER ->
@@ -528,7 +533,7 @@ RecvGarbage(s, m, fresh) ==
              s1 == IF v = 0 THEN s ELSE [s EXCEPT !.ver = v]
              s2 == Rollback(s1, s)
          IN IF v = 0 \/ v # m.v \/ m.why = "version" THEN Res(Forget(s2), <<>>, NoText, TRUE, <<>>)
-            ELSE IF v = 3 THEN Res(Forget(s2), <<ErrorMsg>>, NoText, TRUE, <<"msg:ReceivedMessageMalformed">>)
+            ELSE IF v = 3 THEN Res(Forget(s2), <<ErrM("malformed")>>, NoText, TRUE, <<"msg:ReceivedMessageMalformed">>)
             ELSE Res(Forget(s2), <<>>, NoText, TRUE, <<>>)
     [] OTHER ->
          LET v == Commit(s, {m.v})
@@ -539,14 +544,14 @@ RecvGarbage(s, m, fresh) ==
                 ELSE
                  LET vt == IF v = 3 THEN VerifyTags(s1, m.st, m.rt) ELSE [s |-> s1, verdict |-> "ok"]
                      r == CASE vt.verdict = "bad" ->
-                                 Res(vt.s, <<ErrorMsg>>, NoText, TRUE, <<"msg:ReceivedMessageMalformed">>)
+                                 Res(vt.s, <<ErrM("malformed")>>, NoText, TRUE, <<"msg:ReceivedMessageMalformed">>)
                             [] vt.verdict = "other" ->
                                  Res(vt.s, <<>>, NoText, FALSE, <<"msg:ReceivedMessageForOtherInstance">>)
                             [] m.why = "data" ->
                                  IF vt.s.ms # "enc"
                                  THEN Res(vt.s, <<>>, NoText, m.flag % 2 = 0, <<"msg:ReceivedMessageNotInPrivate">>)
                                  ELSE IF m.flag % 2 = 1 THEN Res(vt.s, <<>>, NoText, FALSE, <<>>)
-                                 ELSE Res(vt.s, <<ErrorMsg>>, NoText, TRUE, <<"msg:ReceivedMessageMalformed">>)
+                                 ELSE Res(vt.s, <<ErrM("malformed")>>, NoText, TRUE, <<"msg:ReceivedMessageMalformed">>)
                             [] OTHER -> RecvGarbageAKE(vt.s, m, fresh)
                  IN [r EXCEPT !.s = Forget(IF r.err \/ vt.verdict = "other" \/ (m.why # "data" /\ r.out = <<>>) THEN Rollback(r.s, s) ELSE r.s)]
 
@@ -598,7 +603,7 @@ Send(s, text) ==
          [] s.ms = "enc" ->
               LET g == GenData(s, text, FALSE, 0, <<>>, FALSE)
               IN IF g.ok THEN Res([g.s EXCEPT !.hb = FALSE], <<g.m>>, NoText, FALSE, <<>>)
-                 ELSE Res(InjectErr(s), <<ErrorMsg>>, NoText, TRUE, <<"msg:EncryptionError">>)
+                 ELSE Res(InjectErr(s), <<ErrM("encryption")>>, NoText, TRUE, <<"msg:EncryptionError">>)
          [] s.ms = "fin" ->
               Res(s, <<>>, NoText, TRUE, <<"msg:ConnectionEnded">>)
 
@@ -621,7 +626,7 @@ SMPStart(s0, secret, q, run) ==
   LET s == IF s0.smp = "nil" THEN [s0 EXCEPT !.smp = "expect1"] ELSE s0
   IN IF s.ms # "enc" THEN Res(s, <<>>, NoText, TRUE, <<>>)
      ELSE
-      LET term == Term(KeyOf(s.me), s.peer, s.sess, secret)
+      LET term == Term(s.key, s.peer, s.sess, secret)
           k == IF q THEN 7 ELSE 2
           tlvs == IF s.smp = "expect1" THEN <<k>> ELSE <<6, k>>
           s1 == [s EXCEPT !.smp = "expect2", !.smpsec = term, !.smprun = run]
@@ -634,7 +639,7 @@ SMPAnswer(s, secret) ==
   IF s.smp # "waiting" THEN Res([s EXCEPT !.smp = "expect1"], <<>>, NoText, TRUE, <<>>)
   ELSE IF s.ms # "enc" THEN Res([s EXCEPT !.smp = "expect1"], <<>>, NoText, TRUE, <<>>)
   ELSE
-    LET term == Term(s.peer, KeyOf(s.me), s.sess, secret)
+    LET term == Term(s.peer, s.key, s.sess, secret)
         s1 == [s EXCEPT !.smp = "expect3", !.smpsec = term]
         g == GenDataS(s1, NoText, FALSE, 1, <<3>>, FALSE, [k |-> 3, sec |-> term, ok |-> "ok", run |-> s.smprun])
     IN IF g.ok THEN Res([g.s EXCEPT !.hb = FALSE], <<g.m>>, NoText, FALSE, <<>>)
